@@ -63,7 +63,9 @@ func (d *Dir) Write(files map[string][]byte) error {
 		return err
 	}
 
-	if err := os.MkdirAll(newDir, os.ModePerm); err != nil {
+	// The version directory must be a new one: if a directory of that name exists already (two writes within the
+	// resolution of the clock), fail rather than mix the files of two writes
+	if err := os.Mkdir(newDir, os.ModePerm); err != nil {
 		return err
 	}
 
